@@ -9,6 +9,7 @@ import (
 	"os"
 	"os/exec"
 	"path/filepath"
+	"regexp"
 	"strings"
 	"time"
 
@@ -67,6 +68,18 @@ func (r *replayer) overlayFile() (string, error) {
 		return "", err
 	}
 	repl[rng] = pf
+	if r.prop == "C12" {
+		// schedule replay: ValueMap's synchronisation operations go through
+		// the native scheduler's wrappers (zz_verif_sched.go)
+		vmf := filepath.Join(r.repo, "valuemap.go")
+		if src, err := os.ReadFile(vmf); err == nil {
+			vp := filepath.Join(r.dir, "valuemap_patched.go")
+			if err := os.WriteFile(vp, patchSyncOps(src), 0o644); err != nil {
+				return "", err
+			}
+			repl[vmf] = vp
+		}
+	}
 	data, _ := json.Marshal(map[string]interface{}{"Replace": repl})
 	of := filepath.Join(r.dir, "overlay.json")
 	return of, os.WriteFile(of, data, 0o644)
@@ -190,6 +203,42 @@ func firstFatal(out string) string {
 		s = s[:j]
 	}
 	return s
+}
+
+var syncOpRewrites = []struct {
+	re   *regexp.Regexp
+	repl string
+}{
+	{regexp.MustCompile(`\b(\w+(?:\.\w+)*)\.Lock\(\)`), "vSyncLock(&$1)"},
+	{regexp.MustCompile(`\b(\w+(?:\.\w+)*)\.Unlock\(\)`), "vSyncUnlock(&$1)"},
+	{regexp.MustCompile(`\b(\w+(?:\.\w+)*)\.read\.Load\(\)`), "vSyncValueLoad(&$1.read)"},
+	{regexp.MustCompile(`\b(\w+(?:\.\w+)*)\.read\.Store\(`), "vSyncValueStore(&$1.read, "},
+	{regexp.MustCompile(`\batomic\.LoadPointer\(`), "vSyncLoadPointer("},
+	{regexp.MustCompile(`\batomic\.StorePointer\(`), "vSyncStorePointer("},
+	{regexp.MustCompile(`\batomic\.CompareAndSwapPointer\(`), "vSyncCASPointer("},
+}
+
+// patchSyncOps rewrites the synchronisation operations of valuemap.go into
+// calls of the replay scheduler's wrappers (comments are left alone only as
+// far as they do not contain such calls; the file is not reformatted).
+func patchSyncOps(src []byte) []byte {
+	lines := strings.Split(string(src), "\n")
+	for i, ln := range lines {
+		code := ln
+		cmt := ""
+		if k := strings.Index(ln, "//"); k >= 0 {
+			code, cmt = ln[:k], ln[k:]
+		}
+		for _, rw := range syncOpRewrites {
+			code = rw.re.ReplaceAllString(code, rw.repl)
+		}
+		lines[i] = code + cmt
+	}
+	out := strings.Join(lines, "\n")
+	// "sync/atomic" may have become unused
+	out = strings.Replace(out, "\t\"sync/atomic\"\n", "\t\"sync/atomic\"\n", 1)
+	out += "\nvar _ = atomic.LoadPointer\n"
+	return []byte(out)
 }
 
 // patchedRng returns the path of x/exp/rand/rng.go and a copy whose
